@@ -61,6 +61,11 @@ class Impl:
       from jax.sharding import Mesh
       mesh = Mesh(np.array(jax.devices()[:n]), ('x',))
       self.obj = rb.PjitWrapper(inner, mesh, ('x',))
+    elif wrap == 'pjity':   # a 2-D mesh, buffer partitioned along the NON-leading axis only: n = size of 'y'
+      from jax.sharding import Mesh
+      devs = np.array(jax.devices()[:4]).reshape(4 // n, n) if n in (1, 2, 4) else None
+      mesh = Mesh(devs, ('x', 'y'))
+      self.obj = rb.PjitWrapper(inner, mesh, ('y',))
     self._host0 = dict(inner.__dict__)
     self.key0 = jax.random.PRNGKey(7)
 
@@ -80,7 +85,13 @@ class Impl:
               'obs': {'a': jnp.asarray(np.stack([ids + 0.25, ids * 2, -ids], 1)),
                       'b': jnp.asarray(np.stack([ids * 3, ids * 5, ids * 7, ids + 0.5], 1).reshape(-1, 2, 2))},
               'flag': jnp.asarray((ids.astype(np.int32) * 11) % 13)}
-    return {'id': jnp.asarray(ids), 'v': jnp.asarray(np.stack([ids * 2, ids * 3], 1))}
+    return {'id': jnp.asarray(ids), 'v': jnp.asarray(np.stack([ids * 2, self._v1(ids)], 1))}
+
+  @staticmethod
+  def _v1(ids):
+    """second payload component: 3*id, or +inf for every 4th record (e.g. a log-probability of a saturated action)"""
+    ids = np.asarray(ids, np.float32)
+    return np.where((ids % 4 == 0) & (ids > 0), np.inf, ids * 3).astype(np.float32)
 
   def decode(self, batch):
     """Returns list of ids; raises AssertionError if the leaves of a record disagree."""
@@ -95,7 +106,7 @@ class Impl:
         return None
     else:
       v = np.asarray(batch['v'])
-      if not np.allclose(v, np.stack([ids * 2, ids * 3], 1)):
+      if not np.array_equal(v, np.stack([ids * 2, self._v1(ids)], 1)):
         return None
     return [int(x) for x in ids]
 
@@ -402,9 +413,9 @@ def run(ctx):
     nedges += model_and_walk(ctx, cap, batch, False, 'uniform', depth - 1)
     closure(ctx, cap, batch, False, 'uniform')
   k3_counterexample(ctx)
-  shard_cfgs = [(2, 1, False, 'pmap', 2), (2, 2, True, 'pjit', 2), (3, 2, False, 'pjit', 2)] if quick else \
+  shard_cfgs = [(2, 1, False, 'pmap', 2), (2, 2, True, 'pjit', 2), (3, 2, False, 'pjit', 2), (2, 2, False, 'pjity', 2)] if quick else \
       [(c, b, cy, w, n) for c in (1, 2, 3) for b in (1, 2) for cy in (False, True)
-       for w, n in (('pmap', 2), ('pjit', 2), ('pjit', 3), ('pmap', 4), ('pjit', 4))]
+       for w, n in (('pmap', 2), ('pjit', 2), ('pjit', 3), ('pmap', 4), ('pjit', 4), ('pjity', 2))]
   for cap, batch, cyclic, wrap, n in shard_cfgs:
     nedges += model_and_walk(ctx, cap, batch, cyclic, 'queue', 5 if quick else 6, wrap=wrap, n=n)
     closure(ctx, cap, batch, cyclic, 'queue', wrap=wrap, n=n)
